@@ -320,6 +320,16 @@ impl<'a, 'ast> Visit<'ast> for V<'a> {
         let (lo, hi) = rng(e);
         match e {
             Expr::Call(c) => {
+                // T14:  (RECV.field)(args)  ->  RECV.field.call(args)
+                //       a call of a boxed closure stored in a struct field becomes a method call on the opaque
+                //       stand-in type declared for that field (Verus rejects Box<dyn Fn>)
+                if let Expr::Paren(pp) = &*c.func {
+                    if let Expr::Field(_) = &*pp.expr {
+                        let inner = self.ed.r(&*pp.expr);
+                        let args: Vec<String> = c.args.iter().map(|a| self.ed.r(a)).collect();
+                        self.ed.replace(lo, hi, format!("{}.call({})", inner, args.join(", ")), "T14");
+                    }
+                }
                 if let Expr::Path(p) = &*c.func {
                     let ids = path_idents(&p.path);
                     if ids.len() == 3 && self.is_kind(&ids[0]) && ids[1] == "I" && c.args.is_empty() {
